@@ -1044,6 +1044,7 @@ structure EInv (s : St) : Prop where
   ended : s.ended = true → s.stopCalled = true ∨ Drained s
   eos : CRes.eos ∈ s.cres → s.stopCalled = true ∨ Drained s
   noOld : s.cp ≠ .ldClosedOld
+  retNoneCl : ∀ g, s.cp = .pop g true .retNone → Drained s
 
 /-- once the source is closed nobody holds (or can take) the producer lock -/
 theorem closed_no_holder (s : St) (hL : LInv s) (hc : s.closed = true) (i : Nat) : hasHandle (s.pp i) = false := by
@@ -1056,7 +1057,7 @@ theorem popStep_le {r pu p} (h : RingInv r pu (some p)) :
     (popStep r p).1.hcount ≤ (popStep r p).1.tcount := by
   obtain ⟨k1, k2, k3⟩ := popStep_inv h
   cases hout : (popStep r p).2 with
-  | cont p' => exact (k1 p' hout).le1
+  | cont p' => exact (k1 p' hout).1.le1
   | empty => exact (k2 hout).1.le1
   | done x => exact (k3 x hout).1.le1
 
@@ -1068,79 +1069,79 @@ theorem isEmpty_drained (s : St) (hT : TInv s) (he : s.ring.isEmpty = true) : s.
 
 theorem stepP_EInv_none (s : St) (i : Nat) (op : Option POp)  (hpc : s.pp i = .none )
     (hT : TInv s) (h : EInv s) : EInv (stepP s i op) := by
-  obtain ⟨e1, e2, e3, e4, e5, e6, e7⟩ := h
+  obtain ⟨e1, e2, e3, e4, e5, e6, e7, e8⟩ := h
   have hp : s.v.plock = true := by rw [hT.l.var]; rfl
   have hq : s.v.pipe = false := by rw [hT.l.var]; rfl
   have hnh := closed_no_holder s hT.l
   simp only [stepP, hpc, startP, St.endSample, St.beginSample, St.setP, hp, hq, Bool.false_eq_true, if_false, if_true]
   repeat' split
   all_goals first
-    | exact ⟨e1, e2, e3, e4, e5, e6, e7⟩
-    | (refine ⟨?_, ?_, ?_, ?_, ?_, ?_, ?_⟩ <;> grind [Drained, upd, holdsPush, holdsPopP, holdsPopC, hasHandle, PopperOk, PusherOk])
+    | exact ⟨e1, e2, e3, e4, e5, e6, e7, e8⟩
+    | (refine ⟨?_, ?_, ?_, ?_, ?_, ?_, ?_, ?_⟩ <;> grind [Drained, upd, holdsPush, holdsPopP, holdsPopC, hasHandle, PopperOk, PusherOk])
 
 theorem stepP_EInv_reserved (s : St) (i : Nat) (op : Option POp)  (hpc : s.pp i = .reserved )
     (hT : TInv s) (h : EInv s) : EInv (stepP s i op) := by
-  obtain ⟨e1, e2, e3, e4, e5, e6, e7⟩ := h
+  obtain ⟨e1, e2, e3, e4, e5, e6, e7, e8⟩ := h
   have hp : s.v.plock = true := by rw [hT.l.var]; rfl
   have hq : s.v.pipe = false := by rw [hT.l.var]; rfl
   have hnh := closed_no_holder s hT.l
   simp only [stepP, hpc, startP, St.endSample, St.beginSample, St.setP, hp, hq, Bool.false_eq_true, if_false, if_true]
   repeat' split
   all_goals first
-    | exact ⟨e1, e2, e3, e4, e5, e6, e7⟩
-    | (refine ⟨?_, ?_, ?_, ?_, ?_, ?_, ?_⟩ <;> grind [Drained, upd, holdsPush, holdsPopP, holdsPopC, hasHandle, PopperOk, PusherOk])
+    | exact ⟨e1, e2, e3, e4, e5, e6, e7, e8⟩
+    | (refine ⟨?_, ?_, ?_, ?_, ?_, ?_, ?_, ?_⟩ <;> grind [Drained, upd, holdsPush, holdsPopP, holdsPopC, hasHandle, PopperOk, PusherOk])
 
 theorem stepP_EInv_gone (s : St) (i : Nat) (op : Option POp)  (hpc : s.pp i = .gone )
     (hT : TInv s) (h : EInv s) : EInv (stepP s i op) := by
-  obtain ⟨e1, e2, e3, e4, e5, e6, e7⟩ := h
+  obtain ⟨e1, e2, e3, e4, e5, e6, e7, e8⟩ := h
   have hp : s.v.plock = true := by rw [hT.l.var]; rfl
   have hq : s.v.pipe = false := by rw [hT.l.var]; rfl
   have hnh := closed_no_holder s hT.l
   simp only [stepP, hpc, startP, St.endSample, St.beginSample, St.setP, hp, hq, Bool.false_eq_true, if_false, if_true]
   repeat' split
   all_goals first
-    | exact ⟨e1, e2, e3, e4, e5, e6, e7⟩
-    | (refine ⟨?_, ?_, ?_, ?_, ?_, ?_, ?_⟩ <;> grind [Drained, upd, holdsPush, holdsPopP, holdsPopC, hasHandle, PopperOk, PusherOk])
+    | exact ⟨e1, e2, e3, e4, e5, e6, e7, e8⟩
+    | (refine ⟨?_, ?_, ?_, ?_, ?_, ?_, ?_, ?_⟩ <;> grind [Drained, upd, holdsPush, holdsPopP, holdsPopC, hasHandle, PopperOk, PusherOk])
 
 theorem stepP_EInv_idle (s : St) (i : Nat) (op : Option POp)  (hpc : s.pp i = .idle )
     (hT : TInv s) (h : EInv s) : EInv (stepP s i op) := by
-  obtain ⟨e1, e2, e3, e4, e5, e6, e7⟩ := h
+  obtain ⟨e1, e2, e3, e4, e5, e6, e7, e8⟩ := h
   have hp : s.v.plock = true := by rw [hT.l.var]; rfl
   have hq : s.v.pipe = false := by rw [hT.l.var]; rfl
   have hnh := closed_no_holder s hT.l
   simp only [stepP, hpc, startP, St.endSample, St.beginSample, St.setP, hp, hq, Bool.false_eq_true, if_false, if_true]
   repeat' split
   all_goals first
-    | exact ⟨e1, e2, e3, e4, e5, e6, e7⟩
-    | (refine ⟨?_, ?_, ?_, ?_, ?_, ?_, ?_⟩ <;> grind [Drained, upd, holdsPush, holdsPopP, holdsPopC, hasHandle, PopperOk, PusherOk])
+    | exact ⟨e1, e2, e3, e4, e5, e6, e7, e8⟩
+    | (refine ⟨?_, ?_, ?_, ?_, ?_, ?_, ?_, ?_⟩ <;> grind [Drained, upd, holdsPush, holdsPopP, holdsPopC, hasHandle, PopperOk, PusherOk])
 
 theorem stepP_EInv_acq (s : St) (i : Nat) (op : Option POp) (k v rest) (hpc : s.pp i = .acq k v rest)
     (hT : TInv s) (h : EInv s) : EInv (stepP s i op) := by
-  obtain ⟨e1, e2, e3, e4, e5, e6, e7⟩ := h
+  obtain ⟨e1, e2, e3, e4, e5, e6, e7, e8⟩ := h
   have hp : s.v.plock = true := by rw [hT.l.var]; rfl
   have hq : s.v.pipe = false := by rw [hT.l.var]; rfl
   have hnh := closed_no_holder s hT.l
   simp only [stepP, hpc, startP, St.endSample, St.beginSample, St.setP, hp, hq, Bool.false_eq_true, if_false, if_true]
   repeat' split
   all_goals first
-    | exact ⟨e1, e2, e3, e4, e5, e6, e7⟩
-    | (refine ⟨?_, ?_, ?_, ?_, ?_, ?_, ?_⟩ <;> grind [Drained, upd, holdsPush, holdsPopP, holdsPopC, hasHandle, PopperOk, PusherOk])
+    | exact ⟨e1, e2, e3, e4, e5, e6, e7, e8⟩
+    | (refine ⟨?_, ?_, ?_, ?_, ?_, ?_, ?_, ?_⟩ <;> grind [Drained, upd, holdsPush, holdsPopP, holdsPopC, hasHandle, PopperOk, PusherOk])
 
 theorem stepP_EInv_chk (s : St) (i : Nat) (op : Option POp) (k v rest) (hpc : s.pp i = .chk k v rest)
     (hT : TInv s) (h : EInv s) : EInv (stepP s i op) := by
-  obtain ⟨e1, e2, e3, e4, e5, e6, e7⟩ := h
+  obtain ⟨e1, e2, e3, e4, e5, e6, e7, e8⟩ := h
   have hp : s.v.plock = true := by rw [hT.l.var]; rfl
   have hq : s.v.pipe = false := by rw [hT.l.var]; rfl
   have hnh := closed_no_holder s hT.l
   simp only [stepP, hpc, startP, St.endSample, St.beginSample, St.setP, hp, hq, Bool.false_eq_true, if_false, if_true]
   repeat' split
   all_goals first
-    | exact ⟨e1, e2, e3, e4, e5, e6, e7⟩
-    | (refine ⟨?_, ?_, ?_, ?_, ?_, ?_, ?_⟩ <;> grind [Drained, upd, holdsPush, holdsPopP, holdsPopC, hasHandle, PopperOk, PusherOk])
+    | exact ⟨e1, e2, e3, e4, e5, e6, e7, e8⟩
+    | (refine ⟨?_, ?_, ?_, ?_, ?_, ?_, ?_, ?_⟩ <;> grind [Drained, upd, holdsPush, holdsPopP, holdsPopC, hasHandle, PopperOk, PusherOk])
 
 theorem stepP_EInv_push (s : St) (i : Nat) (op : Option POp) (c v rest p) (hpc : s.pp i = .push c v rest p)
     (hT : TInv s) (h : EInv s) : EInv (stepP s i op) := by
-  obtain ⟨e1, e2, e3, e4, e5, e6, e7⟩ := h
+  obtain ⟨e1, e2, e3, e4, e5, e6, e7, e8⟩ := h
   have hp : s.v.plock = true := by rw [hT.l.var]; rfl
   have hq : s.v.pipe = false := by rw [hT.l.var]; rfl
   have hnh := closed_no_holder s hT.l
@@ -1148,36 +1149,36 @@ theorem stepP_EInv_push (s : St) (i : Nat) (op : Option POp) (c v rest p) (hpc :
   simp only [stepP, hpc, startP, St.endSample, St.beginSample, St.setP, hp, hq, Bool.false_eq_true, if_false, if_true]
   repeat' split
   all_goals first
-    | exact ⟨e1, e2, e3, e4, e5, e6, e7⟩
-    | (refine ⟨?_, ?_, ?_, ?_, ?_, ?_, ?_⟩ <;> grind [Drained, upd, holdsPush, holdsPopP, holdsPopC, hasHandle, PopperOk, PusherOk])
+    | exact ⟨e1, e2, e3, e4, e5, e6, e7, e8⟩
+    | (refine ⟨?_, ?_, ?_, ?_, ?_, ?_, ?_, ?_⟩ <;> grind [Drained, upd, holdsPush, holdsPopP, holdsPopC, hasHandle, PopperOk, PusherOk])
 
 theorem stepP_EInv_ntf (s : St) (i : Nat) (op : Option POp) (c rest) (hpc : s.pp i = .ntf c rest)
     (hT : TInv s) (h : EInv s) : EInv (stepP s i op) := by
-  obtain ⟨e1, e2, e3, e4, e5, e6, e7⟩ := h
+  obtain ⟨e1, e2, e3, e4, e5, e6, e7, e8⟩ := h
   have hp : s.v.plock = true := by rw [hT.l.var]; rfl
   have hq : s.v.pipe = false := by rw [hT.l.var]; rfl
   have hnh := closed_no_holder s hT.l
   simp only [stepP, hpc, startP, St.endSample, St.beginSample, St.setP, hp, hq, Bool.false_eq_true, if_false, if_true]
   repeat' split
   all_goals first
-    | exact ⟨e1, e2, e3, e4, e5, e6, e7⟩
-    | (refine ⟨?_, ?_, ?_, ?_, ?_, ?_, ?_⟩ <;> grind [Drained, upd, holdsPush, holdsPopP, holdsPopC, hasHandle, PopperOk, PusherOk])
+    | exact ⟨e1, e2, e3, e4, e5, e6, e7, e8⟩
+    | (refine ⟨?_, ?_, ?_, ?_, ?_, ?_, ?_, ?_⟩ <;> grind [Drained, upd, holdsPush, holdsPopP, holdsPopC, hasHandle, PopperOk, PusherOk])
 
 theorem stepP_EInv_tryLock (s : St) (i : Nat) (op : Option POp) (v rest) (hpc : s.pp i = .tryLock v rest)
     (hT : TInv s) (h : EInv s) : EInv (stepP s i op) := by
-  obtain ⟨e1, e2, e3, e4, e5, e6, e7⟩ := h
+  obtain ⟨e1, e2, e3, e4, e5, e6, e7, e8⟩ := h
   have hp : s.v.plock = true := by rw [hT.l.var]; rfl
   have hq : s.v.pipe = false := by rw [hT.l.var]; rfl
   have hnh := closed_no_holder s hT.l
   simp only [stepP, hpc, startP, St.endSample, St.beginSample, St.setP, hp, hq, Bool.false_eq_true, if_false, if_true]
   repeat' split
   all_goals first
-    | exact ⟨e1, e2, e3, e4, e5, e6, e7⟩
-    | (refine ⟨?_, ?_, ?_, ?_, ?_, ?_, ?_⟩ <;> grind [Drained, upd, holdsPush, holdsPopP, holdsPopC, hasHandle, PopperOk, PusherOk])
+    | exact ⟨e1, e2, e3, e4, e5, e6, e7, e8⟩
+    | (refine ⟨?_, ?_, ?_, ?_, ?_, ?_, ?_, ?_⟩ <;> grind [Drained, upd, holdsPush, holdsPopP, holdsPopC, hasHandle, PopperOk, PusherOk])
 
 theorem stepP_EInv_pop (s : St) (i : Nat) (op : Option POp) (v rest p) (hpc : s.pp i = .pop v rest p)
     (hT : TInv s) (h : EInv s) : EInv (stepP s i op) := by
-  obtain ⟨e1, e2, e3, e4, e5, e6, e7⟩ := h
+  obtain ⟨e1, e2, e3, e4, e5, e6, e7, e8⟩ := h
   have hp : s.v.plock = true := by rw [hT.l.var]; rfl
   have hq : s.v.pipe = false := by rw [hT.l.var]; rfl
   have hnh := closed_no_holder s hT.l
@@ -1190,110 +1191,110 @@ theorem stepP_EInv_pop (s : St) (i : Nat) (op : Option POp) (v rest p) (hpc : s.
   simp only [stepP, hpc, startP, St.endSample, St.beginSample, St.setP, hp, hq, Bool.false_eq_true, if_false, if_true]
   repeat' split
   all_goals first
-    | exact ⟨e1, e2, e3, e4, e5, e6, e7⟩
-    | (refine ⟨?_, ?_, ?_, ?_, ?_, ?_, ?_⟩ <;> grind [Drained, upd, holdsPush, holdsPopP, holdsPopC, hasHandle, PopperOk, PusherOk])
+    | exact ⟨e1, e2, e3, e4, e5, e6, e7, e8⟩
+    | (refine ⟨?_, ?_, ?_, ?_, ?_, ?_, ?_, ?_⟩ <;> grind [Drained, upd, holdsPush, holdsPopP, holdsPopC, hasHandle, PopperOk, PusherOk])
 
 theorem stepP_EInv_clone (s : St) (i : Nat) (op : Option POp) (j') (hpc : s.pp i = .clone j')
     (hT : TInv s) (h : EInv s) : EInv (stepP s i op) := by
-  obtain ⟨e1, e2, e3, e4, e5, e6, e7⟩ := h
+  obtain ⟨e1, e2, e3, e4, e5, e6, e7, e8⟩ := h
   have hp : s.v.plock = true := by rw [hT.l.var]; rfl
   have hq : s.v.pipe = false := by rw [hT.l.var]; rfl
   have hnh := closed_no_holder s hT.l
   simp only [stepP, hpc, startP, St.endSample, St.beginSample, St.setP, hp, hq, Bool.false_eq_true, if_false, if_true]
   repeat' split
   all_goals first
-    | exact ⟨e1, e2, e3, e4, e5, e6, e7⟩
-    | (refine ⟨?_, ?_, ?_, ?_, ?_, ?_, ?_⟩ <;> grind [Drained, upd, holdsPush, holdsPopP, holdsPopC, hasHandle, PopperOk, PusherOk])
+    | exact ⟨e1, e2, e3, e4, e5, e6, e7, e8⟩
+    | (refine ⟨?_, ?_, ?_, ?_, ?_, ?_, ?_, ?_⟩ <;> grind [Drained, upd, holdsPush, holdsPopP, holdsPopC, hasHandle, PopperOk, PusherOk])
 
 theorem stepP_EInv_fetchSub (s : St) (i : Nat) (op : Option POp)  (hpc : s.pp i = .fetchSub )
     (hT : TInv s) (h : EInv s) : EInv (stepP s i op) := by
-  obtain ⟨e1, e2, e3, e4, e5, e6, e7⟩ := h
+  obtain ⟨e1, e2, e3, e4, e5, e6, e7, e8⟩ := h
   have hp : s.v.plock = true := by rw [hT.l.var]; rfl
   have hq : s.v.pipe = false := by rw [hT.l.var]; rfl
   have hnh := closed_no_holder s hT.l
   simp only [stepP, hpc, startP, St.endSample, St.beginSample, St.setP, hp, hq, Bool.false_eq_true, if_false, if_true]
   repeat' split
   all_goals first
-    | exact ⟨e1, e2, e3, e4, e5, e6, e7⟩
-    | (refine ⟨?_, ?_, ?_, ?_, ?_, ?_, ?_⟩ <;> grind [Drained, upd, holdsPush, holdsPopP, holdsPopC, hasHandle, PopperOk, PusherOk])
+    | exact ⟨e1, e2, e3, e4, e5, e6, e7, e8⟩
+    | (refine ⟨?_, ?_, ?_, ?_, ?_, ?_, ?_, ?_⟩ <;> grind [Drained, upd, holdsPush, holdsPopP, holdsPopC, hasHandle, PopperOk, PusherOk])
 
 theorem stepP_EInv_stClosed (s : St) (i : Nat) (op : Option POp)  (hpc : s.pp i = .stClosed )
     (hT : TInv s) (h : EInv s) : EInv (stepP s i op) := by
-  obtain ⟨e1, e2, e3, e4, e5, e6, e7⟩ := h
+  obtain ⟨e1, e2, e3, e4, e5, e6, e7, e8⟩ := h
   have hp : s.v.plock = true := by rw [hT.l.var]; rfl
   have hq : s.v.pipe = false := by rw [hT.l.var]; rfl
   have hnh := closed_no_holder s hT.l
   simp only [stepP, hpc, startP, St.endSample, St.beginSample, St.setP, hp, hq, Bool.false_eq_true, if_false, if_true]
   repeat' split
   all_goals first
-    | exact ⟨e1, e2, e3, e4, e5, e6, e7⟩
-    | (refine ⟨?_, ?_, ?_, ?_, ?_, ?_, ?_⟩ <;> grind [Drained, upd, holdsPush, holdsPopP, holdsPopC, hasHandle, PopperOk, PusherOk])
+    | exact ⟨e1, e2, e3, e4, e5, e6, e7, e8⟩
+    | (refine ⟨?_, ?_, ?_, ?_, ?_, ?_, ?_, ?_⟩ <;> grind [Drained, upd, holdsPush, holdsPopP, holdsPopC, hasHandle, PopperOk, PusherOk])
 
 theorem stepP_EInv_ntfW (s : St) (i : Nat) (op : Option POp)  (hpc : s.pp i = .ntfW )
     (hT : TInv s) (h : EInv s) : EInv (stepP s i op) := by
-  obtain ⟨e1, e2, e3, e4, e5, e6, e7⟩ := h
+  obtain ⟨e1, e2, e3, e4, e5, e6, e7, e8⟩ := h
   have hp : s.v.plock = true := by rw [hT.l.var]; rfl
   have hq : s.v.pipe = false := by rw [hT.l.var]; rfl
   have hnh := closed_no_holder s hT.l
   simp only [stepP, hpc, startP, St.endSample, St.beginSample, St.setP, hp, hq, Bool.false_eq_true, if_false, if_true]
   repeat' split
   all_goals first
-    | exact ⟨e1, e2, e3, e4, e5, e6, e7⟩
-    | (refine ⟨?_, ?_, ?_, ?_, ?_, ?_, ?_⟩ <;> grind [Drained, upd, holdsPush, holdsPopP, holdsPopC, hasHandle, PopperOk, PusherOk])
+    | exact ⟨e1, e2, e3, e4, e5, e6, e7, e8⟩
+    | (refine ⟨?_, ?_, ?_, ?_, ?_, ?_, ?_, ?_⟩ <;> grind [Drained, upd, holdsPush, holdsPopP, holdsPopC, hasHandle, PopperOk, PusherOk])
 
 theorem stepC_EInv_idle (s : St) (start : Bool)  (hpc : s.cp = .idle )
     (hT : TInv s) (h : EInv s) : EInv (stepC s start) := by
-  obtain ⟨e1, e2, e3, e4, e5, e6, e7⟩ := h
+  obtain ⟨e1, e2, e3, e4, e5, e6, e7, e8⟩ := h
   have hr : s.v.rfix = true := by rw [hT.l.var]; rfl
   simp only [stepC, hpc, St.loopTop, St.retC, hr, if_true]
   repeat' split
   all_goals first
-    | exact ⟨e1, e2, e3, e4, e5, e6, e7⟩
-    | (refine ⟨?_, ?_, ?_, ?_, ?_, ?_, ?_⟩ <;> grind [Drained, upd, holdsPush, holdsPopP, holdsPopC, hasHandle, PopperOk, PusherOk])
+    | exact ⟨e1, e2, e3, e4, e5, e6, e7, e8⟩
+    | (refine ⟨?_, ?_, ?_, ?_, ?_, ?_, ?_, ?_⟩ <;> grind [Drained, upd, holdsPush, holdsPopP, holdsPopC, hasHandle, PopperOk, PusherOk])
 
 theorem stepC_EInv_mkNtf (s : St) (start : Bool)  (hpc : s.cp = .mkNtf )
     (hT : TInv s) (h : EInv s) : EInv (stepC s start) := by
-  obtain ⟨e1, e2, e3, e4, e5, e6, e7⟩ := h
+  obtain ⟨e1, e2, e3, e4, e5, e6, e7, e8⟩ := h
   have hr : s.v.rfix = true := by rw [hT.l.var]; rfl
   simp only [stepC, hpc, St.loopTop, St.retC, hr, if_true]
   repeat' split
   all_goals first
-    | exact ⟨e1, e2, e3, e4, e5, e6, e7⟩
-    | (refine ⟨?_, ?_, ?_, ?_, ?_, ?_, ?_⟩ <;> grind [Drained, upd, holdsPush, holdsPopP, holdsPopC, hasHandle, PopperOk, PusherOk])
+    | exact ⟨e1, e2, e3, e4, e5, e6, e7, e8⟩
+    | (refine ⟨?_, ?_, ?_, ?_, ?_, ?_, ?_, ?_⟩ <;> grind [Drained, upd, holdsPush, holdsPopP, holdsPopC, hasHandle, PopperOk, PusherOk])
 
 theorem stepC_EInv_ldEnded (s : St) (start : Bool) (g) (hpc : s.cp = .ldEnded g)
     (hT : TInv s) (h : EInv s) : EInv (stepC s start) := by
-  obtain ⟨e1, e2, e3, e4, e5, e6, e7⟩ := h
+  obtain ⟨e1, e2, e3, e4, e5, e6, e7, e8⟩ := h
   have hr : s.v.rfix = true := by rw [hT.l.var]; rfl
   simp only [stepC, hpc, St.loopTop, St.retC, hr, if_true]
   repeat' split
   all_goals first
-    | exact ⟨e1, e2, e3, e4, e5, e6, e7⟩
-    | (refine ⟨?_, ?_, ?_, ?_, ?_, ?_, ?_⟩ <;> grind [Drained, upd, holdsPush, holdsPopP, holdsPopC, hasHandle, PopperOk, PusherOk])
+    | exact ⟨e1, e2, e3, e4, e5, e6, e7, e8⟩
+    | (refine ⟨?_, ?_, ?_, ?_, ?_, ?_, ?_, ?_⟩ <;> grind [Drained, upd, holdsPush, holdsPopP, holdsPopC, hasHandle, PopperOk, PusherOk])
 
 theorem stepC_EInv_lock (s : St) (start : Bool) (g) (hpc : s.cp = .lock g)
     (hT : TInv s) (h : EInv s) : EInv (stepC s start) := by
-  obtain ⟨e1, e2, e3, e4, e5, e6, e7⟩ := h
+  obtain ⟨e1, e2, e3, e4, e5, e6, e7, e8⟩ := h
   have hr : s.v.rfix = true := by rw [hT.l.var]; rfl
   simp only [stepC, hpc, St.loopTop, St.retC, hr, if_true]
   repeat' split
   all_goals first
-    | exact ⟨e1, e2, e3, e4, e5, e6, e7⟩
-    | (refine ⟨?_, ?_, ?_, ?_, ?_, ?_, ?_⟩ <;> grind [Drained, upd, holdsPush, holdsPopP, holdsPopC, hasHandle, PopperOk, PusherOk])
+    | exact ⟨e1, e2, e3, e4, e5, e6, e7, e8⟩
+    | (refine ⟨?_, ?_, ?_, ?_, ?_, ?_, ?_, ?_⟩ <;> grind [Drained, upd, holdsPush, holdsPopP, holdsPopC, hasHandle, PopperOk, PusherOk])
 
 theorem stepC_EInv_ldClosed1 (s : St) (start : Bool) (g) (hpc : s.cp = .ldClosed1 g)
     (hT : TInv s) (h : EInv s) : EInv (stepC s start) := by
-  obtain ⟨e1, e2, e3, e4, e5, e6, e7⟩ := h
+  obtain ⟨e1, e2, e3, e4, e5, e6, e7, e8⟩ := h
   have hr : s.v.rfix = true := by rw [hT.l.var]; rfl
   simp only [stepC, hpc, St.loopTop, St.retC, hr, if_true]
   repeat' split
   all_goals first
-    | exact ⟨e1, e2, e3, e4, e5, e6, e7⟩
-    | (refine ⟨?_, ?_, ?_, ?_, ?_, ?_, ?_⟩ <;> grind [Drained, upd, holdsPush, holdsPopP, holdsPopC, hasHandle, PopperOk, PusherOk])
+    | exact ⟨e1, e2, e3, e4, e5, e6, e7, e8⟩
+    | (refine ⟨?_, ?_, ?_, ?_, ?_, ?_, ?_, ?_⟩ <;> grind [Drained, upd, holdsPush, holdsPopP, holdsPopC, hasHandle, PopperOk, PusherOk])
 
 theorem stepC_EInv_pop (s : St) (start : Bool) (g cl p) (hpc : s.cp = .pop g cl p)
     (hT : TInv s) (h : EInv s) : EInv (stepC s start) := by
-  obtain ⟨e1, e2, e3, e4, e5, e6, e7⟩ := h
+  obtain ⟨e1, e2, e3, e4, e5, e6, e7, e8⟩ := h
   have hr : s.v.rfix = true := by rw [hT.l.var]; rfl
   have hpo : s.poplock = some .cons := hT.l.poplockC.1 (by simp [hpc, holdsPopC])
   have hview : s.poView = some p := by simp [St.poView, hpo, hpc, popViewC]
@@ -1305,79 +1306,79 @@ theorem stepC_EInv_pop (s : St) (start : Bool) (g cl p) (hpc : s.cp = .pop g cl 
   simp only [stepC, hpc, St.loopTop, St.retC, hr, if_true]
   repeat' split
   all_goals first
-    | exact ⟨e1, e2, e3, e4, e5, e6, e7⟩
-    | (refine ⟨?_, ?_, ?_, ?_, ?_, ?_, ?_⟩ <;> grind [Drained, upd, holdsPush, holdsPopP, holdsPopC, hasHandle, PopperOk, PusherOk])
+    | exact ⟨e1, e2, e3, e4, e5, e6, e7, e8⟩
+    | (refine ⟨?_, ?_, ?_, ?_, ?_, ?_, ?_, ?_⟩ <;> grind [Drained, upd, holdsPush, holdsPopP, holdsPopC, hasHandle, PopperOk, PusherOk])
 
 theorem stepC_EInv_ldClosedOld (s : St) (start : Bool)  (hpc : s.cp = .ldClosedOld )
     (hT : TInv s) (h : EInv s) : EInv (stepC s start) := by
-  obtain ⟨e1, e2, e3, e4, e5, e6, e7⟩ := h
+  obtain ⟨e1, e2, e3, e4, e5, e6, e7, e8⟩ := h
   have hr : s.v.rfix = true := by rw [hT.l.var]; rfl
   simp only [stepC, hpc, St.loopTop, St.retC, hr, if_true]
   repeat' split
   all_goals first
-    | exact ⟨e1, e2, e3, e4, e5, e6, e7⟩
-    | (refine ⟨?_, ?_, ?_, ?_, ?_, ?_, ?_⟩ <;> grind [Drained, upd, holdsPush, holdsPopP, holdsPopC, hasHandle, PopperOk, PusherOk])
+    | exact ⟨e1, e2, e3, e4, e5, e6, e7, e8⟩
+    | (refine ⟨?_, ?_, ?_, ?_, ?_, ?_, ?_, ?_⟩ <;> grind [Drained, upd, holdsPush, holdsPopP, holdsPopC, hasHandle, PopperOk, PusherOk])
 
 theorem stepC_EInv_stEnded (s : St) (start : Bool)  (hpc : s.cp = .stEnded )
     (hT : TInv s) (h : EInv s) : EInv (stepC s start) := by
-  obtain ⟨e1, e2, e3, e4, e5, e6, e7⟩ := h
+  obtain ⟨e1, e2, e3, e4, e5, e6, e7, e8⟩ := h
   have hr : s.v.rfix = true := by rw [hT.l.var]; rfl
   simp only [stepC, hpc, St.loopTop, St.retC, hr, if_true]
   repeat' split
   all_goals first
-    | exact ⟨e1, e2, e3, e4, e5, e6, e7⟩
-    | (refine ⟨?_, ?_, ?_, ?_, ?_, ?_, ?_⟩ <;> grind [Drained, upd, holdsPush, holdsPopP, holdsPopC, hasHandle, PopperOk, PusherOk])
+    | exact ⟨e1, e2, e3, e4, e5, e6, e7, e8⟩
+    | (refine ⟨?_, ?_, ?_, ?_, ?_, ?_, ?_, ?_⟩ <;> grind [Drained, upd, holdsPush, holdsPopP, holdsPopC, hasHandle, PopperOk, PusherOk])
 
 theorem stepC_EInv_await1 (s : St) (start : Bool) (g) (hpc : s.cp = .await1 g)
     (hT : TInv s) (h : EInv s) : EInv (stepC s start) := by
-  obtain ⟨e1, e2, e3, e4, e5, e6, e7⟩ := h
+  obtain ⟨e1, e2, e3, e4, e5, e6, e7, e8⟩ := h
   have hr : s.v.rfix = true := by rw [hT.l.var]; rfl
   simp only [stepC, hpc, St.loopTop, St.retC, hr, if_true]
   repeat' split
   all_goals first
-    | exact ⟨e1, e2, e3, e4, e5, e6, e7⟩
-    | (refine ⟨?_, ?_, ?_, ?_, ?_, ?_, ?_⟩ <;> grind [Drained, upd, holdsPush, holdsPopP, holdsPopC, hasHandle, PopperOk, PusherOk])
+    | exact ⟨e1, e2, e3, e4, e5, e6, e7, e8⟩
+    | (refine ⟨?_, ?_, ?_, ?_, ?_, ?_, ?_, ?_⟩ <;> grind [Drained, upd, holdsPush, holdsPopP, holdsPopC, hasHandle, PopperOk, PusherOk])
 
 theorem stepC_EInv_await2 (s : St) (start : Bool)  (hpc : s.cp = .await2 )
     (hT : TInv s) (h : EInv s) : EInv (stepC s start) := by
-  obtain ⟨e1, e2, e3, e4, e5, e6, e7⟩ := h
+  obtain ⟨e1, e2, e3, e4, e5, e6, e7, e8⟩ := h
   have hr : s.v.rfix = true := by rw [hT.l.var]; rfl
   simp only [stepC, hpc, St.loopTop, St.retC, hr, if_true]
   repeat' split
   all_goals first
-    | exact ⟨e1, e2, e3, e4, e5, e6, e7⟩
-    | (refine ⟨?_, ?_, ?_, ?_, ?_, ?_, ?_⟩ <;> grind [Drained, upd, holdsPush, holdsPopP, holdsPopC, hasHandle, PopperOk, PusherOk])
+    | exact ⟨e1, e2, e3, e4, e5, e6, e7, e8⟩
+    | (refine ⟨?_, ?_, ?_, ?_, ?_, ?_, ?_, ?_⟩ <;> grind [Drained, upd, holdsPush, holdsPopP, holdsPopC, hasHandle, PopperOk, PusherOk])
 
 theorem stepC_EInv_ldClosed2 (s : St) (start : Bool)  (hpc : s.cp = .ldClosed2 )
     (hT : TInv s) (h : EInv s) : EInv (stepC s start) := by
-  obtain ⟨e1, e2, e3, e4, e5, e6, e7⟩ := h
+  obtain ⟨e1, e2, e3, e4, e5, e6, e7, e8⟩ := h
   have hr : s.v.rfix = true := by rw [hT.l.var]; rfl
   simp only [stepC, hpc, St.loopTop, St.retC, hr, if_true]
   repeat' split
   all_goals first
-    | exact ⟨e1, e2, e3, e4, e5, e6, e7⟩
-    | (refine ⟨?_, ?_, ?_, ?_, ?_, ?_, ?_⟩ <;> grind [Drained, upd, holdsPush, holdsPopP, holdsPopC, hasHandle, PopperOk, PusherOk])
+    | exact ⟨e1, e2, e3, e4, e5, e6, e7, e8⟩
+    | (refine ⟨?_, ?_, ?_, ?_, ?_, ?_, ?_, ?_⟩ <;> grind [Drained, upd, holdsPush, holdsPopP, holdsPopC, hasHandle, PopperOk, PusherOk])
 
 theorem stepC_EInv_isEmpty (s : St) (start : Bool)  (hpc : s.cp = .isEmpty )
     (hT : TInv s) (h : EInv s) : EInv (stepC s start) := by
-  obtain ⟨e1, e2, e3, e4, e5, e6, e7⟩ := h
+  obtain ⟨e1, e2, e3, e4, e5, e6, e7, e8⟩ := h
   have hr : s.v.rfix = true := by rw [hT.l.var]; rfl
   have hie := isEmpty_drained s hT
   simp only [stepC, hpc, St.loopTop, St.retC, hr, if_true]
   repeat' split
   all_goals first
-    | exact ⟨e1, e2, e3, e4, e5, e6, e7⟩
-    | (refine ⟨?_, ?_, ?_, ?_, ?_, ?_, ?_⟩ <;> grind [Drained, upd, holdsPush, holdsPopP, holdsPopC, hasHandle, PopperOk, PusherOk])
+    | exact ⟨e1, e2, e3, e4, e5, e6, e7, e8⟩
+    | (refine ⟨?_, ?_, ?_, ?_, ?_, ?_, ?_, ?_⟩ <;> grind [Drained, upd, holdsPush, holdsPopP, holdsPopC, hasHandle, PopperOk, PusherOk])
 
 theorem stepC_EInv_stEnded2 (s : St) (start : Bool)  (hpc : s.cp = .stEnded2 )
     (hT : TInv s) (h : EInv s) : EInv (stepC s start) := by
-  obtain ⟨e1, e2, e3, e4, e5, e6, e7⟩ := h
+  obtain ⟨e1, e2, e3, e4, e5, e6, e7, e8⟩ := h
   have hr : s.v.rfix = true := by rw [hT.l.var]; rfl
   simp only [stepC, hpc, St.loopTop, St.retC, hr, if_true]
   repeat' split
   all_goals first
-    | exact ⟨e1, e2, e3, e4, e5, e6, e7⟩
-    | (refine ⟨?_, ?_, ?_, ?_, ?_, ?_, ?_⟩ <;> grind [Drained, upd, holdsPush, holdsPopP, holdsPopC, hasHandle, PopperOk, PusherOk])
+    | exact ⟨e1, e2, e3, e4, e5, e6, e7, e8⟩
+    | (refine ⟨?_, ?_, ?_, ?_, ?_, ?_, ?_, ?_⟩ <;> grind [Drained, upd, holdsPush, holdsPopP, holdsPopC, hasHandle, PopperOk, PusherOk])
 
 theorem stepP_EInv (s : St) (i : Nat) (op : Option POp) (hT : TInv s) (h : EInv s) : EInv (stepP s i op) := by
   cases hpc : s.pp i with
@@ -1413,15 +1414,15 @@ theorem stepC_EInv (s : St) (start : Bool) (hT : TInv s) (h : EInv s) : EInv (st
   | stEnded2  => exact stepC_EInv_stEnded2 s start  hpc hT h
 
 theorem stepS_EInv (s : St) (start : Bool) (h : EInv s) : EInv (stepS s start) := by
-  obtain ⟨e1, e2, e3, e4, e5, e6, e7⟩ := h
+  obtain ⟨e1, e2, e3, e4, e5, e6, e7, e8⟩ := h
   simp only [stepS]
   repeat' split
   all_goals first
-    | exact ⟨e1, e2, e3, e4, e5, e6, e7⟩
-    | (refine ⟨?_, ?_, ?_, ?_, ?_, ?_, ?_⟩ <;> grind [Drained])
+    | exact ⟨e1, e2, e3, e4, e5, e6, e7, e8⟩
+    | (refine ⟨?_, ?_, ?_, ?_, ?_, ?_, ?_, ?_⟩ <;> grind [Drained])
 
 theorem EInv.init (cap W : Nat) : EInv (St.init Variant.cur cap W 0) := by
-  refine ⟨?_, ?_, ?_, ?_, ?_, ?_, ?_⟩ <;> simp [St.init]
+  refine ⟨?_, ?_, ?_, ?_, ?_, ?_, ?_, ?_⟩ <;> simp [St.init]
 
 /-- everything together -/
 structure FInv (s : St) : Prop where
